@@ -12,7 +12,9 @@
    with the repairs f2d48c0 (sequence-number queue keys), 46e0134 (state before store height), a489023 (an EMPTY
    batch older than the last block is skipped) and the reaper repair of this property (the same bytes listed
    twice by GetTxs are handed off once).  Initial height 1, signer = genesis proposer, no DA, no pending limit,
-   an execution layer whose ExecuteTxs succeeds and is deterministic (other cases are C01/C04/C08's subject).
+   a deterministic execution layer whose ExecuteTxs succeeds or — item IExecFail — returns an error once.  The reaper
+   loop and the aggregation loop are two goroutines: item IMid is a produce step with a complete SubmitTxs in its
+   middle (after any number of the step's acts).
 
    Every action returns the ordered list of its atomic datastore writes, interleaved with the one external
    effect (ExecuteTxs reaching the execution layer); a crash keeps a prefix (DESIGN 2.5); a transient write
@@ -228,11 +230,17 @@ Inductive item :=
 | IArrive (t : tx)                              (* a transaction enters the mempool (node up or down) *)
 | IRun (a : action)                             (* the action runs to completion *)
 | ICrash (a : action) (k : nat) (e : bool)      (* the process dies inside the action after k of its writes *)
-| IFault (a : action) (k : nat).                (* write attempt number k (from 0) of the action returns an error;
+| IFault (a : action) (k : nat)                 (* write attempt number k (from 0) of the action returns an error;
                                                    the process lives on (a start-up that fails leaves no process) *)
+| IExecFail (ts : Z)                            (* a produce step whose ExecuteTxs call returns an error (a transient
+                                                   failure of the execution layer, manager.go:703-706); the process lives on *)
+| IMid (ts : Z) (p : nat).                      (* a produce step DURING which the reaper's SubmitTxs runs to completion
+                                                   (reaper loop and aggregation loop are two goroutines; the sequencer's
+                                                   calls are atomic): right after the first [S p] acts of the step *)
 
 (* result codes as the harness prints them: 1 boot-ok 2 reaped 3 committed 4 skipped 5 e-time 6 not-running
-   7 crashed 8 e-load 9 e-store (the step returned the injected write error) 10 e-validate 11 boot-failed *)
+   7 crashed 8 e-load 9 e-store (the step returned the injected write error) 10 e-validate 11 boot-failed
+   12 e-exec (the step returned the error of ExecuteTxs) *)
 Definition code_of (o : outcome) : N :=
   match o with OCommitted => 3 | OSkipped => 4 | OErrTime => 5 | OErrLoad => 8 | OErrValidate => 10 end%N.
 
@@ -248,6 +256,34 @@ Definition fault_acts_of (max : N) (gt : Z) (s : st) (a : action) (k : nat) : li
   let '(l, c) := acts_of max gt s a in
   let '(l', e) := fault k l in
   (l', if e then match a with ABoot => 11%N | AReap => 2%N | AProduce _ => 9%N end else c).
+
+(* ---- ExecuteTxs returns an error: manager.go:703-706 applyBlock fails, publishBlockInternal returns "error applying
+   block"; everything before the call has happened (on the code as it is: the batch is taken and the block built from
+   it is saved — the next step finds it as the pending block), nothing after it ------------------------------------ *)
+Fixpoint until_exec (l : list act) : list act * bool :=
+  match l with
+  | [] => ([], false)
+  | AExec _ :: _ => ([], true)
+  | AW w :: r => let '(r', e) := until_exec r in (AW w :: r', e)
+  end.
+
+Definition execfail_acts_of (s : st) (ts : Z) : list act * N :=
+  if up s then
+    let '(l, o) := produce_acts ts s in
+    let '(l', e) := until_exec l in (l', if e then 12%N else code_of o)
+  else ([], 6%N).
+
+(* ---- a reap in the middle of a produce step.  The reaper (block/reaper.go Start: its own goroutine and ticker) and
+   the aggregation loop run concurrently; SubmitBatchTxs / GetNextBatch are serialised by the queue's mutex and the
+   datastore's writes are atomic, so an interleaving is: the first acts of the produce step, a complete SubmitTxs,
+   the remaining acts.  What the produce step does after GetNextBatch has answered depends on the batch in hand,
+   the last state and the block records only — not on the queue, the seen-set or the mempool listing — so its acts
+   are those of the undisturbed step; the reap sees the state reached by the acts before it (the queue without the
+   batch just taken; the mempool without the executed transactions once ExecuteTxs has run). ------------------------ *)
+Definition mid_before (s : st) (ts : Z) (p : nat) : list act := firstn (S p) (fst (produce_acts ts s)).
+Definition mid_after (s : st) (ts : Z) (p : nat) : list act := skipn (S p) (fst (produce_acts ts s)).
+Definition mid_reap (max : N) (s : st) (ts : Z) (p : nat) : list act := reap_acts max (apply_acts s (mid_before s ts p)).
+Definition take_all (s : st) : st := set_taken (taken s ++ mem s) s.      (* reaper.go:74 GetTxs *)
 
 (* reaper.go:74: GetTxs — what it returns has been "taken from the mempool";
    sequencer.go NewSequencer -> queue.go Load: every record under /batches, in key order = acceptance order *)
@@ -265,6 +301,8 @@ Definition item_acts (max : N) (gt : Z) (s : st) (it : item) : list act :=
   | IRun a => fst (acts_of max gt s a)
   | ICrash a k e => cut k e (fst (acts_of max gt s a))
   | IFault a k => fst (fault_acts_of max gt s a k)
+  | IExecFail ts => fst (execfail_acts_of s ts)
+  | IMid ts p => if up s then mid_before s ts p ++ mid_reap max s ts p ++ mid_after s ts p else []
   end.
 
 Definition step (max : N) (gt : Z) (s : st) (it : item) : st :=
@@ -277,6 +315,11 @@ Definition step (max : N) (gt : Z) (s : st) (it : item) : st :=
   | IFault a k =>
       let s' := apply_acts (pre s a) (item_acts max gt s it) in
       match a with ABoot => set_up (negb (snd (fault k (boot_acts gt s)))) s' | _ => s' end
+  | IExecFail ts => apply_acts s (item_acts max gt s it)
+  | IMid ts p =>
+      if up s then
+        apply_acts (apply_acts (take_all (apply_acts s (mid_before s ts p))) (mid_reap max s ts p)) (mid_after s ts p)
+      else s
   end.
 
 (* what the harness observes of an item: result code, writes that reached the datastore *)
@@ -286,6 +329,8 @@ Definition observe (max : N) (gt : Z) (s : st) (it : item) : N * list wr :=
   | IRun a => (snd (acts_of max gt s a), writes_of (item_acts max gt s it))
   | ICrash a k e => ((if (snd (acts_of max gt s a) =? 6)%N then 6%N else 7%N), writes_of (item_acts max gt s it))
   | IFault a k => (snd (fault_acts_of max gt s a k), writes_of (item_acts max gt s it))
+  | IExecFail ts => (snd (execfail_acts_of s ts), writes_of (item_acts max gt s it))
+  | IMid ts p => (snd (acts_of max gt s (AProduce ts)), writes_of (item_acts max gt s it))
   end.
 
 Fixpoint run (max : N) (gt : Z) (s : st) (h : list item) : st :=
@@ -332,7 +377,7 @@ Fixpoint clock_monotone (max : N) (gt : Z) (s : st) (h : list item) : bool :=
   | [] => true
   | it :: r =>
       (match it with
-       | IRun (AProduce ts) | ICrash (AProduce ts) _ _ | IFault (AProduce ts) _ =>
+       | IRun (AProduce ts) | ICrash (AProduce ts) _ _ | IFault (AProduce ts) _ | IExecFail ts | IMid ts _ =>
            negb (up s && before ts (match th s with O => None | S k => option_map b_time (nth_error (blocks s) k) end))
        | _ => true
        end) && clock_monotone max gt (step max gt s it) r
